@@ -501,7 +501,11 @@ class SGen:
             return ("if", self.expr(1, in_loop), body, elifs, els), budget - b
         if k == "for":
             tg = self.name()
-            test = self.expr(1, in_loop and r.random() < 0.1) if r.random() < 0.25 else None
+            # (inside a loop the filter of a nested loop often reads the OUTER loop's `loop`: the inner one does not
+            #  exist yet when the filter runs)
+            test = self.expr(1, in_loop and r.random() < 0.5) if r.random() < 0.25 else None
+            if test is not None and in_loop and r.random() < 0.3:
+                test = ("attr", "loop", "index")
             body, b = self.block(b, depth - 1, True, list(macros))
             els = []
             if b > 0 and r.random() < 0.3:
